@@ -456,3 +456,173 @@ def rule_affine(facts):
     r.samples = [info]
     r.require_floor(len([v for v in info.values() if v]), facts, "AFFINE.arms", "power function arms evaluated")
     return r
+
+
+# ====================================================================== ERR-SPAN (error construction keeps span / found)
+
+def rule_err_span(facts):
+    """All error flavours are built from the same (expected, found, span) triple: expected_found stores the span and
+    found arguments unchanged; replace_expected_found re-homes the error at the new span on every path (and
+    clears stale contexts); the trait defaults forward the triple in order."""
+    r = RuleResult("ERR-SPAN")
+    n = 0
+    for b in facts.bodies:
+        if b["kind"] == "Closure":
+            continue
+        tr = b.get("impl_trait") or b.get("in_trait")
+        if tr != "label::LabelError":
+            continue
+        adt = facts.adts.get(b.get("impl_self_adt") or "")
+        fields = [f["name"] for v in (adt["variants"] if adt else []) for f in v["fields"]]
+        pv = Prov(b)
+        if b["name"] == "expected_found":
+            n += 1
+            ret = pv.of_local(0)
+            aggs = [x for x in ret if x[0] == "aggf"]
+            ok = len(aggs) == 1
+            why = fmt_roots(ret)
+            if ok:
+                d = dict(aggs[0][2])
+                if "span" in d:
+                    ok = ok and set(d["span"]) == {("arg", 3)}
+                if "found" in d:
+                    ok = ok and set(d["found"]) == {("arg", 2)}
+                else:
+                    # Rich keeps `found` inside its reason
+                    if "reason" in d:
+                        ok = ok and mirq.roots_mention(d["reason"], lambda x: isinstance(x, tuple) and x[0] == "aggf" and any(k == "found" and set(v) == {("arg", 2)} for k, v in x[2]))
+            r.ob(ok)
+            if not ok:
+                r.violations.append(V("ERR-SPAN", b["uname"], "expected_found stores span/found",
+                                      "%s must store the `span` argument (and `found`) unchanged; builds %s" % (b["uname"], why[:300]), *loc(b)))
+        elif b["name"] == "replace_expected_found":
+            n += 1
+            if b.get("in_trait"):
+                ret = pv.of_local(0)
+                ok = any(x[0] == "call" and x[1] == "expected_found" and [set(a) for a in x[3]] == [{("arg", 2)}, {("arg", 3)}, {("arg", 4)}] for x in ret)
+                r.ob(ok)
+                if not ok:
+                    r.violations.append(V("ERR-SPAN", b["uname"], "default forwards the triple", "default replace_expected_found must be expected_found(expected, found, span); found %s" % fmt_roots(ret), *loc(b)))
+                continue
+            # impl on an ADT with a span field: `self.span = span` on every path
+            if "span" in fields:
+                ws = [i for i, bl, s in assigns(b) if s["place"]["l"] == 1 and mirq.field_path(s["place"]) == ["span"]
+                      and pv.of_rvalue(s["rv"], 0) == {("arg", 4)}]
+                rets = set(mirq.return_blocks(b))
+                ok = bool(ws) and not (mirq.reachable(b, 0, avoid=set(ws)) & rets)
+                r.ob(ok)
+                if not ok:
+                    r.violations.append(V("ERR-SPAN", b["uname"], "span replaced on every path",
+                                          "replace_expected_found must assign the new span to self.span on every path (a later failure "
+                                          "that replaces an earlier error would otherwise report the old span)", *loc(b)))
+            if "context" in fields:
+                cl = [i for i, bl, t, f in calls(b) if f is not None and f["name"] == "clear"
+                      and pv.of_operand(t["args"][0]["op"]) == {("arg", 1, "context")}]
+                rets = set(mirq.return_blocks(b))
+                ok = bool(cl) and not (mirq.reachable(b, 0, avoid=set(cl)) & rets)
+                r.ob(ok)
+                if not ok:
+                    r.violations.append(V("ERR-SPAN", b["uname"], "contexts cleared on every path",
+                                          "replace_expected_found must clear the label contexts of the replaced error on every path", *loc(b)))
+        elif b["name"] == "merge_expected_found" and b.get("in_trait"):
+            n += 1
+            ret = pv.of_local(0)
+            ok = any(x[0] == "call" and x[1] == "merge" and len(x[3]) == 2 and set(x[3][0]) == {("arg", 1)}
+                     and any(y[0] == "call" and y[1] == "expected_found" and [set(a) for a in y[3]] == [{("arg", 2)}, {("arg", 3)}, {("arg", 4)}] for y in x[3][1])
+                     for x in ret)
+            r.ob(ok)
+            if not ok:
+                r.violations.append(V("ERR-SPAN", b["uname"], "default merges the triple", "default merge_expected_found must be self.merge(expected_found(expected, found, span)); found %s" % fmt_roots(ret), *loc(b)))
+    r.explanation = ("%d LabelError bodies: every expected_found stores its span (and found) argument unchanged, so Cheap/Simple/Rich report "
+                     "the same span for the same failure; replace_expected_found assigns the new span and clears contexts on every path; "
+                     "trait defaults forward (expected, found, span) in order" % n)
+    r.nontrivial = n
+    r.samples = [{"bodies": n}]
+    r.require_floor(n, facts, "ERR-SPAN.bodies", "LabelError bodies inspected")
+    return r
+
+
+# ====================================================================== ORDER-ARMS (priority of the pending error)
+
+ORDER_EXPECT = {
+    "input::InputRef::add_alt_err": {
+        "cmp": ("cursor_location(take(arg1.errors.alt).0.pos)", "cursor_location(arg2)"),
+        "Less": "Option{0: at(arg2, arg3)}",
+        "Equal": "Option{0: at(take(arg1.errors.alt).0.pos, merge(take(arg1.errors.alt).0.err, arg3))}",
+        "Greater": "Option{0: take(arg1.errors.alt).0}",
+        "None": "Option{0: at(arg2, arg3)}",
+    },
+    "input::InputRef::add_alt": {
+        "cmp": ("cursor_location(take(arg1.errors.alt).0.pos)", "cursor_location(arg1.cursor)"),
+        "Less": "Option{0: at(arg1.cursor, replace_expected_found(take(arg1.errors.alt).0.err, arg2, arg3, arg4))}",
+        "Equal": "Option{0: at(take(arg1.errors.alt).0.pos, merge_expected_found(take(arg1.errors.alt).0.err, arg2, arg3, arg4))}",
+        "Greater": "Option{0: take(arg1.errors.alt).0}",
+        "None": "Option{0: at(arg1.cursor, expected_found(arg2, arg3, arg4))}",
+    },
+}
+
+
+def rule_order_arms(facts):
+    """The pending primary error is replaced by a later failure, merged with an equal-positioned one, kept otherwise."""
+    from rules_hooks import is_field
+    r = RuleResult("ORDER-ARMS")
+    for q, exp in ORDER_EXPECT.items():
+        b = facts.one(q)
+        pv = Prov(b)
+        cmps = [(i, t) for i, bl, t, f in calls(b) if f is not None and f["name"] == "cmp"]
+        ok = len(cmps) == 1
+        d = "%d cmp calls" % len(cmps)
+        if ok:
+            a0 = fmt_roots(pv.of_operand(cmps[0][1]["args"][0]["op"]))
+            a1 = fmt_roots(pv.of_operand(cmps[0][1]["args"][1]["op"]))
+            ok = (a0, a1) == exp["cmp"]
+            d = "cmp(%s, %s)" % (a0, a1)
+            cmp_dest = cmps[0][1]["dest"]["l"]
+        r.ob(ok)
+        r.samples.append({q.split("::")[-1]: d})
+        if not ok:
+            r.violations.append(V("ORDER-ARMS", q, "comparison operands",
+                                  "%s must compare (position of the pending error) with (position of the new error) in that order; found %s"
+                                  % (q.split("::")[-1], d), *loc(b)))
+            continue
+        # discriminant locals of the cmp result and of the taken Option
+        disc_cmp = {s["place"]["l"] for _, _, s in assigns(b) if s["rv"]["k"] == "discr" and s["rv"]["place"]["l"] == cmp_dest}
+        seen = {}
+        for path in mirq.paths(b):
+            arm = None
+            took_option = None
+            for bb, idx in path:
+                t = b["blocks"][bb]["term"]
+                if t["k"] == "switch" and idx not in (None, "loop"):
+                    op = mirq.operand_place(t["op"])
+                    if op is not None and op["l"] in disc_cmp:
+                        ch = mirq.switch_choice(b, bb, idx)
+                        arm = {255: "Less", -1: "Less", 0: "Equal", 1: "Greater"}.get(ch, "other")
+            has_cmp = any(bb == cmps[0][0] for bb, _ in path)
+            if not has_cmp:
+                arm = "None"
+            pp_ = mirq.PathProv(b, path)
+            w = None
+            for bb, _ in path:
+                for s in b["blocks"][bb]["stmts"]:
+                    if s["k"] == "assign" and is_field(s["place"], "input::Errors", "alt"):
+                        w = fmt_roots(pp_.of_rvalue(s["rv"], 0))
+            seen.setdefault(arm, set()).add(w)
+        for arm in ("Less", "Equal", "Greater", "None"):
+            got = seen.get(arm, set())
+            ok = got == {exp[arm]}
+            r.ob(ok)
+            if not ok:
+                r.violations.append(V("ORDER-ARMS", q, "arm %s" % arm,
+                                      "when the pending error is %s the new one, errors.alt must become `%s`; the code stores %s"
+                                      % ({"Less": "earlier than", "Equal": "at the same position as", "Greater": "later than", "None": "absent and there is only"}[arm],
+                                         exp[arm], sorted(map(str, got))), *loc(b)))
+        extra = set(seen) - {"Less", "Equal", "Greater", "None"}
+        r.ob(not extra)
+        if extra:
+            r.violations.append(V("ORDER-ARMS", q, "unclassified path", "paths with ordering arm %s" % sorted(map(str, extra)), *loc(b)))
+    r.explanation = ("add_alt / add_alt_err: per Ordering arm of cmp(pending.pos, new.pos) (operand order checked) the value stored in errors.alt "
+                     "is: later new error -> replaces (at new position), equal -> merged at the pending position, earlier -> pending kept, "
+                     "no pending -> new error; decided by path-sensitive provenance of the stored value")
+    r.nontrivial = 10
+    return r
